@@ -274,6 +274,11 @@ func ParseAVia(s string) (AVia, error) {
 	if v.Host == "" {
 		return AVia{}, fmt.Errorf("empty sent-by host in %q", s)
 	}
+	for _, ch := range v.Port {
+		if ch < '0' || ch > '9' {
+			return AVia{}, fmt.Errorf("bad sent-by port in %q", s)
+		}
+	}
 	v.Pars = parsePars(parts[1:])
 	return v, nil
 }
